@@ -215,8 +215,9 @@ type crashPoint struct {
 	Role     string `json:"role"`
 	Name     string `json:"name"`
 	K        int    `json:"k"`
-	Second   string `json:"second,omitempty"` // crash point armed for the FIRST restart (repeated crash cycle)
-	Both     bool   `json:"both,omitempty"`   // the runner is killed together with the daemon (machine-level failure of both processes)
+	Second   string `json:"second,omitempty"`    // crash point armed for the FIRST restart (repeated crash cycle)
+	ExecDown bool   `json:"exec_down,omitempty"` // remote workload: the executor node is down when the submitter restarts
+	Both     bool   `json:"both,omitempty"`      // the runner is killed together with the daemon (machine-level failure of both processes)
 }
 
 func (c crashPoint) String() string {
@@ -226,6 +227,9 @@ func (c crashPoint) String() string {
 	}
 	if c.Both {
 		s += "+runner-too"
+	}
+	if c.ExecDown {
+		s += "+executor-down"
 	}
 
 	return s
@@ -307,8 +311,10 @@ func experiment(bin, base string, cp crashPoint, idx int) *outcome {
 	if cp.Name != "" {
 		env = []string{fmt.Sprintf("VERIF_CRASH_AT=%s#%d", cp.Name, cp.K), "VERIF_CRASH_WHO=" + cp.Role}
 	}
+	var n2 *daemon.Daemon
 	if w.remote {
-		n2, err := startExecutor(bin, dir, d)
+		var err error
+		n2, err = startExecutor(bin, dir, d)
 		if n2 != nil {
 			defer n2.Cleanup()
 		}
@@ -426,6 +432,9 @@ func experiment(bin, base string, cp crashPoint, idx int) *outcome {
 		time.Sleep(300 * time.Millisecond) // let the daemon notice its child's death first (one more interleaving point)
 		d.Kill()
 	}
+	if cp.ExecDown && n2 != nil {
+		n2.Kill() // the executor is unreachable while the submitter recovers
+	}
 	var env2 []string
 	if cp.Second != "" {
 		env2 = []string{"VERIF_CRASH_AT=" + cp.Second, "VERIF_CRASH_WHO=daemon"}
@@ -459,7 +468,7 @@ func experiment(bin, base string, cp crashPoint, idx int) *outcome {
 	}
 	after := map[string]any{}
 	o.After = after
-	if w.remote {
+	if w.remote && !cp.ExecDown {
 		waitRoute(d, "n2", 60*time.Second)
 	}
 	// ---- no query blocks: work list
@@ -568,10 +577,36 @@ func experiment(bin, base string, cp crashPoint, idx int) *outcome {
 
 			return o
 		}
-		if pstarted && unit != punit {
-			viol("C04:remote-binding-lost"+suffix, fmt.Sprintf("unit %s was bound to remote unit %s on n2, after restart it names %q", k.ID, punit, unit))
+		_ = pstarted
+		// once the id of the remote unit is on record the local unit is bound to it - started or not
+		checkBinding := func(m map[string]any) bool {
+			_, u, _ := remoteBinding(m)
+			if punit != "" && u != punit {
+				viol("C04:remote-binding-lost"+suffix, fmt.Sprintf("unit %s was bound to remote unit %s on n2 (record at the crash), after restart it names %q", k.ID, punit, u))
 
+				return false
+			}
+
+			return true
+		}
+		if !checkBinding(ent) {
 			return o
+		}
+		if o.Class == "acked-not-started" && !cp.ExecDown && n2 != nil {
+			// the submission was not completed before the crash: it must not be made a second time behind the client's back
+			time.Sleep(1500 * time.Millisecond)
+			if m, _, err := statusOf(d, k.ID, 20*time.Second); err == nil && m != nil {
+				st = daemon.Num(m, "State")
+				ent = m
+				if !checkBinding(m) {
+					return o
+				}
+			}
+			if lr2, err := simpleCmd(n2, "work list", 20*time.Second); err == nil && lr2 != nil && lr2.JSON != nil && len(lr2.JSON) > 1 {
+				viol("C04:remote-work-submitted-twice"+suffix, fmt.Sprintf("unit %s: the executor node now holds %d units for ONE submission (the restarted submitter sent the work again)", k.ID, len(lr2.JSON)))
+
+				return o
+			}
 		}
 	}
 	switch o.Class {
@@ -587,6 +622,14 @@ func experiment(bin, base string, cp crashPoint, idx int) *outcome {
 				k.ID, daemon.Str(ent, "Detail")))
 		}
 	case "acked-not-started":
+		if st == 0 && w.remote {
+			// a remote unit whose submission did not complete is failed at once by Restart; give the record a moment
+			for t0 := time.Now(); st == 0 && time.Since(t0) < 4*time.Second; time.Sleep(250 * time.Millisecond) {
+				if m, _, err := statusOf(d, k.ID, 20*time.Second); err == nil && m != nil {
+					st = daemon.Num(m, "State")
+				}
+			}
+		}
 		if st == 0 {
 			viol("C04:left-pending"+suffix, fmt.Sprintf("unit %s never started but is reported Pending after restart (Detail %q)", k.ID, daemon.Str(ent, "Detail")))
 		}
@@ -893,6 +936,8 @@ func liveRunner(bin, base string) *outcome {
 
 // ---------------------------------------------------------------- main
 
+var targeted []crashPoint // points derived from the dry runs that are always run
+
 func c04Main(args []string) {
 	fs := flag.NewFlagSet("c04", flag.ExitOnError)
 	out := fs.String("out", "", "result file")
@@ -910,6 +955,9 @@ func c04Main(args []string) {
 	if *only != "" {
 		var cp crashPoint
 		s := *only
+		if strings.HasSuffix(s, "+executor-down") {
+			cp.ExecDown, s = true, strings.TrimSuffix(s, "+executor-down")
+		}
 		if strings.HasSuffix(s, "+runner-too") {
 			cp.Both, s = true, strings.TrimSuffix(s, "+runner-too")
 		}
@@ -932,6 +980,7 @@ func c04Main(args []string) {
 	} else {
 		// ---- dry runs: which (role, point, k) does each workload reach?
 		perWorkload := map[string]int{}
+		targeted = nil
 		dry := make([]*outcome, len(workloads))
 		var dwg sync.WaitGroup
 		for wi := range workloads {
@@ -962,6 +1011,24 @@ func c04Main(args []string) {
 					order = append(order, key)
 				}
 				count[key]++
+			}
+			if w.remote {
+				// the window of startRemoteUnit between "remote unit id stored" and "remote started": the crash points
+				// inside the rewrite that stores the id leave exactly that record behind
+				nTrunc := 0
+				for _, e := range evs {
+					if e.Str("ev") == "cp" && e.Str("n") == "daemon" && e.Str("name") == "ufs_after_trunc" {
+						nTrunc++
+					}
+					if e.Str("ev") == "sf_write" && strings.Contains(e.Str("rec"), `"RemoteStarted":false`) &&
+						!strings.Contains(e.Str("rec"), `"RemoteUnitID":""`) && strings.Contains(e.Str("rec"), `"RemoteUnitID":"`) {
+						targeted = append(targeted,
+							crashPoint{Workload: w.name, Role: "daemon", Name: "ufs_after_trunc", K: nTrunc + 1},
+							crashPoint{Workload: w.name, Role: "daemon", Name: "ufs_after_trunc", K: nTrunc + 1, ExecDown: true})
+
+						break
+					}
+				}
 			}
 			for _, key := range order {
 				rn := strings.SplitN(key, "/", 2)
@@ -1059,6 +1126,7 @@ func c04Main(args []string) {
 		}
 	}
 	if *only == "" {
+		points = append(points, targeted...)
 		points = append(points,
 			crashPoint{Workload: "long", Role: "daemon", Name: "start_after_pid", K: 1, Both: true},
 			crashPoint{Workload: "finish", Role: "daemon", Name: "submit_after_start", K: 1, Both: true})
